@@ -1,5 +1,6 @@
 import PdshVerif.Dsh.TimedHealthy
 import PdshVerif.Dsh.TimedBound
+import PdshVerif.Dsh.TimedK
 
 /-!
 # C07 — a failing or slow host never harms the others; timeouts bound the run
@@ -402,5 +403,98 @@ example :
       (fun s => (s.now, (s.host 0).res, (s.host 0).reaped, s.inflight, s.fan.dpc)) =
       some (3, Res.cmdTimedOut, true, 0, FanG.DPC.returned) := by
   decide
+
+
+/-! ## `-k`: fail-fast (`Dsh/TimedK.lean`)
+
+The property's exception clause.  With `-k`, a worker whose target failed (connect refused / timed out, command
+timed out, or remote exit status > 0) and that has left `rcmd_destroy` ends the whole run: it forwards SIGTERM to
+every target that is READING and pdsh exits.  Without `-k`, and in `-k` runs up to that moment, the system IS the
+timed LTS above. -/
+namespace K
+open PdshVerif.Dsh.TimedK
+
+/-- FAIL-FAST, enabled: under `-k` the exit of pdsh is enabled as soon as a failed target's worker has left
+    `rcmd_destroy` -- whatever the other workers, the dispatcher, the mutex and the watchdog are doing -/
+theorem failfast_enabled {s : TimedK.St} (hne : s.exited = false) {i : Nat} (ha : aborting s i = true) :
+    ∃ s', TimedK.step s (.abort i) = some s' ∧ s'.exited = true :=
+  ⟨{ s with exited := true, t := sigtermAll s.t }, by simp [TimedK.step, hne, ha], rfl⟩
+
+/-- FAIL-FAST, now: while that exit is pending the clock cannot advance (no waiting for any other host, hanging
+    or not, timeout or not), and the failed worker does not go on to give its slot back -/
+theorem failfast_now {s : TimedK.St} {i : Nat} (ha : aborting s i = true) :
+    TimedK.step s (.t .tick) = none ∧ TimedK.step s (.t (.fan (.w i .lock))) = none := by
+  have hany := mem_range_aborting ha
+  constructor
+  · simp [TimedK.step, hany]
+  · simp [TimedK.step, ha]
+
+/-- after the exit nothing happens -/
+theorem exit_is_end {s : TimedK.St} (he : s.exited = true) (l : TimedK.Label) : TimedK.step s l = none := by
+  cases l with
+  | t l => simp [TimedK.step, he]
+  | abort i => simp [TimedK.step, he]
+
+/-- the exit forwards SIGTERM to every target that is READING (`_fwd_signal`): its command is gone `grace` seconds
+    later at the latest (unless it ignores SIGTERM) -- and touches no other target's record -/
+theorem abort_signals_reading {s s' : TimedK.St} {i : Nat} (h : TimedK.step s (.abort i) = some s') (j : Nat)
+    (hj : j < s.t.hs.length) :
+    s'.t.host j =
+      if (s.t.host j).ph = .reading then
+        { s.t.host j with death := termDeath (s.t.host j).grace s.t.now (s.t.host j).death }
+      else s.t.host j := by
+  obtain ⟨_, _, rfl⟩ := step_abort h
+  exact host_sigtermAll s.t j hj
+
+/-- until pdsh exits a `-k` run is a run of the timed LTS (same labels): every theorem above -- non-interference,
+    healthy targets never interrupted, both deadlines, the fanout bound -- holds of it -/
+theorem refines_timed {v f c scripts k nz} {ls : List TimedK.Label} {s : TimedK.St}
+    (he : TimedK.Exec (TimedK.init v f c scripts k nz) ls s) (hne : s.exited = false) :
+    Timed.Exec (Timed.init v f c scripts) (ls.filterMap TimedK.projLabel) s.t :=
+  TimedK.refines_timed he hne
+
+/-- fail-fast ONLY IF ASKED: without `-k` there is no exit, and every step is exactly the timed LTS's step -/
+theorem without_k_is_timed {v f c scripts nz} {ls : List TimedK.Label} {s : TimedK.St}
+    (he : TimedK.Exec (TimedK.init v f c scripts false nz) ls s) :
+    s.exited = false ∧ (∀ i, TimedK.step s (.abort i) = none) ∧
+      ∀ l, TimedK.step s (.t l) = TimedK.lift s l := by
+  have hk := (flags_const he).1
+  have hex : s.exited = false := by
+    induction he with
+    | nil => rfl
+    | snoc he0 hs ih =>
+      rename_i ls0 s0 l0 s1
+      cases l0 with
+      | t l => exact (step_t hs).2.2.2.2
+      | abort i =>
+        obtain ⟨_, ha, _⟩ := step_abort hs
+        rw [aborting_of_not_k (flags_const he0).1 i] at ha; cases ha
+  refine ⟨hex, ?_, ?_⟩
+  · intro i; simp [TimedK.step, aborting_of_not_k hk i]
+  · intro l
+    simp only [TimedK.step, hex]
+    cases l with
+    | tick => simp [anyAborting_of_not_k hk]
+    | scan => simp
+    | wake i => simp
+    | fan fl =>
+      cases fl with
+      | d a => simp
+      | w i a => cases a <;> simp [aborting_of_not_k hk i]
+
+/-- non-vacuity: fanout 2, `-k`, connect timeout 5, no command timeout; target 0 refuses the connection, target 1
+    accepts and then hangs for ever (nothing would ever end this run without `-k`).  Worker 0's connect fails, it
+    tears down, and pdsh exits -- at virtual time 0, with SIGTERM forwarded to the reading target 1 -/
+example : (TimedK.run (TimedK.init .whileWait 2 { ct := 5, ut := 0, sopt := false, selfCheck := true, stopWdog := true }
+      [{ conn := .refuse 0, out := [], err := [] },
+       { conn := .ok 0, out := [⟨none, .eof⟩], err := [], life := none, grace := some 0 }] true [false, false])
+    [.t (.fan (.d .lock)), .t (.fan (.d (.create 0))), .t (.fan (.d .unlock)),
+     .t (.fan (.d .lock)), .t (.fan (.d (.create 1))), .t (.fan (.d .unlock)),
+     .t (.fan (.w 1 .connectBegin)), .t (.fan (.w 1 .connectEnd)),
+     .t (.fan (.w 0 .connectBegin)), .t (.fan (.w 0 .connectEnd)),
+     .t (.fan (.w 0 .destroyBegin)), .t (.fan (.w 0 .destroyEnd)), .abort 0]).map
+    (fun s => (s.exited, s.t.now, (s.t.host 1).death)) = some (true, 0, some 0) := by decide
+
+end K
 
 end PdshVerif.Props.C07
